@@ -28,6 +28,8 @@ X4 = ["'abc'", "[1,2,3]", "7", "u"]
 X8 = X4 + ["{'a':1,'b':2}", "1.5", "none", "range(3)"]
 R10 = ["0", "-1", "2", "'a'", "[]", "none", "true", "4611686018427387904", "9223372036854775807", "340282366920938463463374607431768211455"]
 OPS = ["+", "-", "*", "/", "//", "%", "**", "~", "<", "==", "in", "and", "or"]
+KWARGS = ["attribute", "default", "width", "first", "blank", "indent", "reverse", "case_sensitive", "by", "start", "length", "end", "leeway", "n", "html", "min", "max",
+          "key", "value", "fill_with", "killwords", "count", "boolean"]
 CTX = {"x": {"a": [1, 2]}, "a": False, "l": [1], "m": "s"}
 WATCHDOG_MS = 20000
 STACK_BUDGET = 2 * 1024 * 1024
@@ -75,6 +77,9 @@ def sweep_templates(repo, rng, thorough):
                     for b in R10:
                         for c in R10[:5]:
                             out.append("{{ %s|%s(%s, %s, %s) }}" % (x, f, a, b, c))
+        for kwn in KWARGS:
+            for a in R10 + ["18446744073709551615"]:
+                out.append("{{ %s|%s(%s=%s) }}" % (X4[len(out) % 3], f, kwn, a))
     for t in tests:
         for x in ALL:
             out.append("{{ %s is %s }}" % (x, t))
@@ -104,6 +109,7 @@ def sweep_templates(repo, rng, thorough):
         out.append("{%% include %s %%}" % a)
         out.append("{%% extends %s %%}" % a)
         out.append("{%% import %s as m %%}{{ m }}" % a)
+        out.append("{%% import 'other.txt' as %s %%}{%% from 'other.txt' import %s %%}{%% from 'other.txt' import x as %s %%}" % (a, a, a))
         out.append("{{ '%%s %%d'|format(%s, %s) }}" % (a, a))
         out.append("{{ '{:>' ~ %s ~ '}'|format(1) }}" % a)
         out.append("{{ (%s, %s)|min }}{{ [%s, u]|max }}{{ [%s, [%s]]|sort }}" % (a, a, a, a, a))
@@ -116,6 +122,11 @@ def sweep_templates(repo, rng, thorough):
             "{{ range(5, -9223372036854775807, -4611686018427387904)|list }}", "{{ range(9223372036854775807, -9223372036854775808, -9223372036854775808)|list }}",
             "{{ range(-9223372036854775808, 9223372036854775807, 9223372036854775807)|list }}", "{{ range(9223372036854775807, -1, -1) }}",
             "{{ 'a\nb\nc'|indent(33333334) |length }}", "{{ 'a\nb\nc'|indent(33333333)|length }}", "{{ [[1]]|tojson(1024)|length }}", "{{ [[1]]|tojson(1025)|length }}"]
+    out += ["{% import 'other.txt' as -b %}", "{% import 'other.txt' as b % c %}", "{% import 'other.txt' as b if c %}", "{% import 'other.txt' as b.c %}",
+            "{% import 'other.txt' as (b) %}", "{% import 'other.txt' as b, c %}", "{% import 'other.txt' as loop %}", "{% from 'other.txt' import -b %}",
+            "{% for -i in l %}{% endfor %}", "{% for i.a in l %}{% endfor %}", "{% for i() in l %}{% endfor %}", "{% set -x = 1 %}", "{% set x() = 1 %}", "{% set x[0] = 1 %}",
+            "{% with -x = 1 %}{% endwith %}", "{% with x.a = 1 %}{% endwith %}", "{% macro m(-a) %}{% endmacro %}", "{% macro m(a.b) %}{% endmacro %}", "{% macro -m() %}{% endmacro %}",
+            "{% call(-a) m() %}{% endcall %}", "{% call(a.b) m() %}{% endcall %}", "{% block -b %}{% endblock %}", "{% set x | -upper %}{% endset %}"]
     out += DEEP_DATA
     return out
 
@@ -135,6 +146,7 @@ CHAINS = [
     ("filterblock", lambda n: "{% filter " + "|".join(["upper"] * max(n, 1)) + " %}x{% endfilter %}"),
     ("setblockfilter", lambda n: "{% set z | " + "|".join(["upper"] * max(n, 1)) + " %}x{% endset %}{{ z }}"),
     ("notin", lambda n: "{{ " + "(" * min(n, 70) + "1" + " not in l)" * min(n, 70) + " }}"),
+    ("settuple", lambda n: "{% set x" + ".a" * n + ", y = 1, 2 %}"),
     ("forfilter", lambda n: "{% for i in l" + "|list" * n + " %}{{ i }}{% endfor %}"), ("ifcond", lambda n: "{% if a" + " or a" * n + " %}x{% endif %}"),
 ]
 NESTS = [
@@ -194,6 +206,51 @@ def nesting_templates(thorough):
     out.append(("wide:list-of-chains", "{{ [" + ", ".join(["x" + ".a" * 300] * 200) + "]|length }}"))
     out.append(("wide:sum-of-chains", "{{ " + " ~ ".join(["m" + "|upper" * 200] * 250) + " }}"))
     out.append(("wide:args-of-chains", "{{ f(" + ", ".join(["x" + "[0]" * 400] * 50) + ") }}"))
+    return out
+
+
+def pipeline_templates(repo, rng, n):
+    """seeded random combinations: a value through 1-3 filters with boundary arguments (positional and keyword),
+    a test or an operator on top, sometimes inside a for loop / set / if; arguments that mean legal but heavy
+    work (10^8, 2^31 items) are left to the single-filter sweep"""
+    filters, tests, funcs = builtin_names(repo)
+    # calibrate on the implementation: which names exist and how many positional arguments they take
+    probe = [("{{ %s|%s(%s) }}" % (x, f, ", ".join(["1"] * k)), f, k) for f in filters for k in range(4) for x in ("'abc'", "[1,2,3]")]
+    res = run_parallel("prog", [{"templates": {"main": t}, "main": "main", "ctx": CTX, "ops": ["render"]} for t, _, _ in probe], True, workers=14, chunk=64)
+    arity = {}
+    for (t, f, k), r in zip(probe, res):
+        code = r.get("render", {}).get("err") if isinstance(r, dict) else None
+        if code not in (6, 8):  # neither TooManyArguments nor UnknownFilter
+            arity[f] = max(arity.get(f, 0), k)
+    filters = sorted(arity) or filters
+    pool = [a for a in ALL if a not in ("100000001", "2147483648")]
+    kw = KWARGS
+    out = []
+    for _ in range(n):
+        e = rng.choice(pool)
+        for _ in range(1 + rng.below(3)):
+            f = rng.choice(filters)
+            k = rng.below(arity.get(f, 2) + 2)
+            args = [rng.choice(pool) for _ in range(k if k <= arity.get(f, 2) else 0)]
+            if rng.chance(1, 5):
+                args.append("%s=%s" % (rng.choice(kw), rng.choice(pool)))
+            e = "%s|%s%s" % (e, f, "(" + ", ".join(args) + ")" if args or rng.chance(1, 4) else "")
+        k = rng.below(8)
+        if k == 0:
+            e = "%s is %s" % (e, rng.choice(tests))
+        elif k == 1:
+            e = "(%s) %s %s" % (e, rng.choice(OPS), rng.choice(pool))
+        elif k == 2:
+            e = "%s(%s)" % (rng.choice(funcs), e)
+        w = rng.below(6)
+        if w == 0:
+            out.append("{%% for i in %s %%}{{ i }}{{ loop.index }}{{ loop.previtem }}{{ loop.cycle(i, 1) }}{%% endfor %%}" % e)
+        elif w == 1:
+            out.append("{%% set v = %s %%}{{ v }}{{ v|length }}{{ v == v }}{{ [v, v]|sort }}" % e)
+        elif w == 2:
+            out.append("{%% if %s %%}a{%% else %%}b{%% endif %%}" % e)
+        else:
+            out.append("{{ %s }}" % e)
     return out
 
 
@@ -297,9 +354,71 @@ def known_matches(entry, template, profile, kind):
 
 
 # ---------------------------------------------------------------------------------------------
-def stack_meter(chk):
-    """bytes of native stack at the limits (debug and release); informational, except that an accepted template
-    needing more than the 2 MiB budget is what the crash monitor reports as a stack overflow"""
+# range(): implementation (functions::range called directly, debug + release) vs extracted Coq model vs
+# the Python oracle of RangeSpec.v, on boundary and seeded isize arguments
+# ---------------------------------------------------------------------------------------------
+def range_cases(chk):
+    I = 2 ** 63
+    pool = [0, 1, -1, 2, -2, 3, -3, 7, 10, -10, 99999, 100000, 100001, -99999, -100000, -100001, 2 ** 31, -2 ** 31, 2 ** 62, -2 ** 62, 2 ** 62 + 1,
+            I - 1, I - 2, -(I - 1), -I, -I + 2, I - 100001, -I + 100000]
+    cases = []
+    for lo in pool:
+        cases.append([lo, 0, 0, 0, 0])
+        for up in pool:
+            cases.append([lo, 1, up, 0, 0])
+            for st in pool:
+                cases.append([lo, 1, up, 1, st])
+    rng = chk.rng
+    for _ in range(60000 if chk.thorough else 6000):
+        lo = rng.choice(pool) + rng.below(7) - 3 if rng.chance(1, 2) else rng.below(2 * I) - I
+        k = rng.below(4)
+        delta = [rng.below(50), rng.below(200001), rng.below(2 * I), rng.below(2 ** 40)][k] * (1 if rng.chance(1, 2) else -1)
+        st = [rng.below(9) - 4, rng.choice(pool), rng.below(2 * I) - I, (rng.below(2 ** 33) + 1) * (1 if rng.chance(1, 2) else -1)][rng.below(4)]
+        up = lo + delta
+        # a step that makes the length small enough to be accepted now and then
+        if rng.chance(1, 2) and delta != 0:
+            st = delta // (rng.below(1000) + 1) or st
+        clamp = lambda z: max(-I, min(I - 1, z))
+        cases.append([clamp(lo), 1, clamp(up), 1 if rng.chance(5, 6) else 0, clamp(st)])
+    return cases
+
+
+def range_correspondence(chk):
+    okm, mlog = build_models("C01")
+    okc = cargo_build(["c01_range"], release=False)[0] and cargo_build(["c01_range"], release=True)[0]
+    if not (okm and okc):
+        chk.violation("C01 range model / harness does not build", {"theorem_or_correspondence": "build C01/Runner.v, harness/src/bin/c01_range.rs", "log": mlog[-1200:]}, True)
+        return {"cases": 0}
+    cases = range_cases(chk)
+    r = corr(chk, "run", "c01_range", "range", cases)
+    spec = run_model("C01", "range-spec", cases)
+    old = run_model("C01", "range-old", cases)
+    describe = lambda c: "{{ range(%s)|list }}" % ", ".join(str(x) for x in ([c[0]] + ([c[2]] if c[1] else []) + ([c[4]] if c[3] else [])))
+    bad = []
+    for i, c in enumerate(cases):
+        for rel in (False, True):
+            if r["impl"][rel][i] != spec[i]:
+                bad.append((i, "release" if rel else "debug", r["impl"][rel][i]))
+    for i, prof, out in bad[:3]:
+        chk.violation("range() differs from Python's range / crashes", {"template": describe(cases[i]), "case": cases[i], "profile": prof, "observed": out, "expected": spec[i]})
+    model_vs_spec = [i for i in range(len(cases)) if r["model"][i] != spec[i]]
+    if not bad and (r["mismatches"] or model_vs_spec or not r.get("kernel_ok", False)):
+        i = (r["mismatches"][0][0] if r["mismatches"] else (model_vs_spec[0] if model_vs_spec else 0))
+        chk.violation("C01 range model and code disagree", {"theorem_or_correspondence": "range_python / correspondence c01_range", "case": cases[i], "model": r["model"][i], "spec": spec[i],
+                                                            "impl_debug": r["impl"][False][i], "kernel_ok": r.get("kernel_ok")}, True)
+    accepted = sum(1 for o in spec if o and o[0] == 0 and o[1] > 0)
+    return {"cases": len(cases), "impl_vs_model": len(r["mismatches"]), "model_vs_spec": len(model_vs_spec), "impl_vs_spec": len(bad), "non_empty_ranges": accepted,
+            "errors": sum(1 for o in spec if o and o[0] == 1), "old_code_would_trap": sum(1 for o in old if o == [2]),
+            "kernel_crosscheck": {"cases": r.get("kernel_checked", 0), "agree": r.get("kernel_ok", False)}, "sample": [describe(cases[i]) for i in (5, len(cases) // 2, len(cases) - 1)]}
+
+
+# ---------------------------------------------------------------------------------------------
+def stack_meter(chk, nest, limit):
+    """(a) bytes of native stack at the limits (debug and release); informational - an accepted template that
+    needs more than the 2 MiB budget is what the crash monitor reports as a stack overflow;
+    (b) height of the real AST (nodes on the longest path, measured on the serialized tree) of every accepted
+    template of the nesting generators: must not exceed the bound of theorem parser_height_bounded plus the
+    root node and one unguarded statement-level node (`a, b` of a set, the target list of a for)."""
     shapes = []
     for name, g in NESTS[:30]:
         for n in (74, 149):
@@ -319,7 +438,18 @@ def stack_meter(chk):
                     if r[phase] > worst.get(phase, (0, ""))[0]:
                         worst[phase] = (r[phase], label)
         out["release" if rel else "debug"] = {k: {"bytes": v[0], "template": v[1]} for k, v in worst.items()}
-    return out, len(shapes) * 2
+    sel = [(l, t) for l, t in nest if len(t) < 60000]
+    res = run_parallel("c01", [{"template": t, "height_only": True, "stack_kib": 65536} for _, t in sel], True, workers=14, chunk=32, memlimit=False)
+    heights = [(r["ast_height"], l, t) for (l, t), r in zip(sel, res) if isinstance(r, dict) and r.get("parse_ok") and "ast_height" in r]
+    heights.sort(key=lambda x: (-x[0], x[1]))
+    bound = limit + 3
+    out["ast_height"] = {"templates": len(sel), "accepted": len(heights), "max": heights[0][0] if heights else 0, "max_template": heights[0][1] if heights else "",
+                         "bound": bound, "lost": len(sel) - sum(1 for r in res if isinstance(r, dict) and "parse_ok" in r)}
+    for h, l, t in heights[:2]:
+        if h > bound:
+            chk.violation("the parser accepted an expression that nests deeper than the nesting limit allows (model of the accounting and code disagree)",
+                          {"theorem_or_correspondence": "parser_height_bounded vs measured AST height", "regenerate": l, "template_head": t[:300], "template_len": len(t), "ast_height": h, "bound": bound}, True)
+    return out, len(shapes) * 2 + len(sel)
 
 
 def main():
@@ -351,7 +481,8 @@ def main():
                 pass
         nest = nesting_templates(chk.thorough)
         groups = [("inbox", inbox), ("sweep", sweep_templates(REPO, chk.rng, chk.thorough)), ("nesting", [t for _, t in nest]),
-                  ("mutated", mutated_fixtures(REPO, chk.rng, 20000 if chk.thorough else 3000))]
+                  ("pipelines", pipeline_templates(REPO, chk.rng, 400000 if chk.thorough else 12000)),
+                  ("mutated", mutated_fixtures(REPO, chk.rng, 150000 if chk.thorough else 3000))]
         labels = {t: l for l, t in nest}
     hist = collections.Counter()
     crashes = []
@@ -365,6 +496,18 @@ def main():
     for rel in (False, True):
         res = run_parallel("prog", reqs, rel, workers=14, chunk=64)
         total += len(res)
+        # a request that did not answer within the watchdog while 14 shards (and whatever else) load the machine
+        # gets a second chance alone with a 6 times longer watchdog before it counts as a hang (at most 4 of them)
+        slow = [k for k, r in enumerate(res) if isinstance(r, dict) and r.get("hang")][:4]
+        if slow:
+            env2 = dict(ENV)
+            env2["MJVERIF_WATCHDOG_MS"] = str(6 * WATCHDOG_MS)
+            cmd2 = ["bash", "-c", "ulimit -v 8000000; exec " + bin_path("prog", rel)]
+            for k in slow:
+                r2 = _run_chunk(cmd2, [reqs[k]], env2)
+                if r2 and not (isinstance(r2[0], dict) and r2[0].get("hang")):
+                    res[k] = r2[0]
+                    hist["answered_after_watchdog"] += 1
         for i, r in zip(order, res):
             gname, t = flat[i]
             rr = r.get("render", r) if isinstance(r, dict) else {}
@@ -380,13 +523,20 @@ def main():
     meter = {}
     if not chk.replay:
         t_m = time.time()
-        meter, n_meter = stack_meter(chk)
+        meter, n_meter = stack_meter(chk, nest, max(info["max_recursion"], info.get("max_nesting", 0)))
         total += n_meter
         chk.notes["meter_wall_s"] = round(time.time() - t_m, 1)
     if os.environ.get("C01_DUMP"):
         with open(os.environ["C01_DUMP"], "w") as f:
             for gname, t, prof, kind, detail in crashes:
                 f.write(json.dumps([gname, (labels.get(t) if not chk.replay else None) or t[:300], prof, kind, detail[:400]]) + "\n")
+    rc = {}
+    if not chk.replay:
+        t_r = time.time()
+        rc = range_correspondence(chk)
+        total += 2 * rc.get("cases", 0)
+        chk.notes["range_wall_s"] = round(time.time() - t_r, 1)
+        chk.cov["range_correspondence"] = rc
     # known findings: regex on the template + profile + kind of crash
     remaining = []
     for gname, t, prof, kind, detail in crashes:
@@ -397,10 +547,10 @@ def main():
         else:
             remaining.append((gname, t, prof, kind, detail))
     chk.cov["explanation"] = ("Partial verification. Proved in Coq (see theorems): parser call nesting is bounded (call graph of %d functions / %d call edges, %d guarded, regenerated from parser.rs and checked by the verified checker: max rank %d, limit %d); every one of the %d parser loops that nest what they parsed one level deeper per iteration is charged against the nesting limit %d (loop table regenerated from parser.rs), and on the model of that accounting the height of every accepted expression is at most the limit; range length arithmetic stays inside i128 and yields isize elements; slices never panic; accepted instruction streams never underflow. "
-                              "Observed (exploration): %d child-process renders (boundary sweep of every built-in filter/test/function/operator x argument pools incl. 2^62..2^128-1 counts, nesting generators: %d chain shapes and %d recursion shapes at depths 10..20000 around both limits plus products of the two, mutated fixtures), debug+release, 2 MiB threads, every error formatted in all forms; crashes seen: %d (known: %d). Stack meter (debug, bytes): %s."
+                              "Observed (exploration): %d child-process renders (boundary sweep of every built-in filter/test/function/operator x argument pools incl. 2^62..2^128-1 counts, nesting generators: %d chain shapes and %d recursion shapes at depths 10..20000 around both limits plus products of the two, seeded random filter pipelines, mutated fixtures), debug+release, 2 MiB threads, every error formatted in all forms; crashes seen: %d (known: %d). Stack meter (debug, bytes): %s."
                               % (info["functions"], info["edges"], info["guarded_edges"], info["max_rank"], info["max_recursion"], len(info.get("loops", [])), info.get("max_nesting", 0),
                                  total, len(CHAINS), len(NESTS), len(crashes), len(crashes) - len(remaining),
-                                 ", ".join("%s %d" % (k, v["bytes"]) for k, v in sorted(meter.get("debug", {}).items()))))
+                                 ", ".join("%s %d" % (k, v["bytes"]) for k, v in sorted(meter.get("debug", {}).items()) if "bytes" in v) + "; tallest accepted AST of the generators: %s nodes (bound %s)" % (meter.get("ast_height", {}).get("max"), meter.get("ast_height", {}).get("bound"))))
     chk.cov["evaluations"] = total
     chk.cov["distinct_nontrivial"] = len(distinct_ok)
     chk.cov["rule"] = "non-trivial = distinct template that loads and renders successfully (the rest end in an error value, which is also an allowed outcome); see explanation for the generators"
